@@ -438,6 +438,26 @@ def gen_fnmatch(rng, full):
     return ops
 
 
+ERRNO_GROUPS = ("path", "strtonum", "inet", "pton6", "fmt", "reallocarray", "mbs", "getline", "fnmatch")
+ERRNO_VALUES = ("0", "ERANGE", "EINVAL", "EPERM", "ENOMEM")
+
+
+def with_errno(rng, ops):
+    """insert `errno NAME` at the start of every 100-op case and at random places in between"""
+    out = []
+    n = 0
+    for o in ops:
+        if n % 100 == 0 or rng.chance(1, 9):
+            out.append("errno " + rng.choice(ERRNO_VALUES))
+            n += 1
+            if n % 100 == 0:                      # keep the case boundary on an errno line
+                out.append("errno " + rng.choice(ERRNO_VALUES))
+                n += 1
+        out.append(o)
+        n += 1
+    return out
+
+
 # ------------------------------------------------------------------ platform differences
 def classify_plat(fn, op, a, b):
     w = op.split(" ")
@@ -481,7 +501,8 @@ def run(ck):
         "glibc is NOT trusted and not the judge: g.c only feeds coverage.platform_differences"]
     ck.cov["rule"] = (
         "one evaluation = one op line = one call of one replacement with complete observation (return value, "
-        "whole destination buffer incl. guard bytes, errno, updated pointers). String/memory functions: "
+        "whole destination buffer incl. guard bytes, errno ON EXIT under PRNG-chosen errno ON ENTRY "
+        "(0/ERANGE/EINVAL/EPERM/ENOMEM, chained from call to call), updated pointers). String/memory functions: "
         "bounded-exhaustive over {a,b,/,.,NUL} (length ≤ 6 thorough, ≤ 4 + samples quick) with every n in 0..len+2, "
         "exact-size and padded destinations; paths: every string over {a,b,/,.} to length 6 + buffer-limit lengths; "
         "ffs/fls: every 16-bit value at 4 shifts + all 2^k-1,2^k,2^k+1, builtin AND loop variants; inet_ntop4: "
@@ -521,6 +542,13 @@ def run(ck):
     groups["timegm"] = gen_timegm(rng, full)
     groups["fnmatch"] = gen_fnmatch(rng, full or intensify)
 
+    # errno history: every replacement that reads or writes errno is entered under several values
+    # of errno (PRNG-chosen `errno NAME` ops; the harness then chains: what a call leaves behind is
+    # the entry errno of the next call, so failing-then-succeeding pairs arise all the time) and
+    # its errno-on-exit is part of the observable
+    for name in ERRNO_GROUPS:
+        groups[name] = with_errno(rng, groups[name])
+
     hist = {}
     total = 0
     seen = set()
@@ -546,7 +574,7 @@ def run(ck):
         w = line.split(" ")
         if len(w) == 3 and w[0] == "dst":
             txt = bytes.fromhex(w[2]).split(b"\x00")[0]
-            rt.append(("pton 6 " + H(txt), "1 0 " + a.hex()))
+            rt.append(("pton 6 " + H(txt), "1 e=0 " + a.hex()))
     ck.compare_cases(hcmd, dcmd, [[op for op, _ in part] for part in vf.chunks(rt, 500)], label="ntop6-pton6")
     rc, out, _ = ck.run(dcmd, input_text="\n".join(op for op, _ in rt) + "\n")
     bad = [(op, exp, got) for (op, exp), got in zip(rt, out.split("\n")) if got != exp]
